@@ -34,7 +34,10 @@ def generate(rng, i, tier):
         "line": line,
         "dyadic": dyadic and not line,
         "market_type": mtype,
-        "p_removal": 0.0,  # removals (price reductions) are not among the histories the property quantifies over
+        # removals (price reductions) are not among the LATER histories the property quantifies over, but a decision taken
+        # after a removal must count the positions as they are then: a sixth of the non-dyadic scenarios have removals, the
+        # consequence clause stops for a market once a runner is removed, the decision clause goes on
+        "p_removal": 0.3 if (not dyadic and not line and rng.random() < 0.17) else 0.0,
         "p_suspend": rng.choice([0.0, 0.2]),
         "p_inplay": rng.choice([0.2, 0.7]),
         "bsp": None if line else rng.random() < 0.7,
